@@ -401,6 +401,14 @@ def check(ctx):
 
 
 def _twin(ctx, pf, nf, pr, nr):
+    if pr.get("positional") is not None:
+        verdict, wit, txt = pr["positional"]
+        ctx.ob("SIB-8", pf, f"python kernel selects {txt[:60]}", pf.node, bool(verdict),
+               "the element at `index` for every valid index, the default otherwise (decided for all lengths and indices)" if verdict else
+               f"for index = {wit[0]} and a group of {wit[1]} element(s) the Python kernel gives "
+               f"{'element ' + str(wit[2] - 100) if isinstance(wit[2], int) else wit[2]} where x[index] gives "
+               f"{'element ' + str(wit[3] - 100) if isinstance(wit[3], int) else 'the default (out of range)'}: it disagrees with Python "
+               f"indexing, with the vector form and with the compiled kernel", clause="the same values, the same missing-value positions")
     ok = pf.params == nf.params
     ctx.ob("SIB-8", nf, f"parameters {pf.params} / {nf.params}", nf.node, ok,
            "twins take the same parameters in the same order (they are called with the same argument list)" if ok else
